@@ -371,6 +371,7 @@ ALPHABETS = {
     'table_hostile': (['a|b', '#c', 'd#e', '|', 'f|', 'g'], ['p|q', 'r#', '#', 's', 't|u', 'v']),
     'wiki_hostile': (['a!b', '!!', 'c||d', '{|', '|}', '|-'], ['!p', 'q!!r', 's', 't', 'u', 'v']),
     'csv_hostile': (['a,b', '"q"', 'line\nbreak', 'cr\r\nlf', ' lead', 'trail '], ['p,', '""', 'x\ny', "'s'", ', ,', ' ']),
+    'backslash': (['a\\b', '\\', 'c\\', '\\n', 'd\\"e', '\\\\x'], ['p\\q', '\\t', 'r\\', '\\\\', "s\\'", '\\0']),
     'long': (['o' * 40, 'a', 'bb', 'c' * 17, 'd', 'ee'], ['p', 'q' * 33, 'r', 'ss', 't' * 9, 'u']),
 }
 
